@@ -168,6 +168,14 @@ def to_number(value: JSValue) -> Union[int, float]:
     return float("nan")
 
 
+def norm_number(n: Union[int, float]) -> Union[int, float]:
+    """Numbers are IEEE doubles: an integer result outside the exactly representable
+    range (+-2**53) is rounded to the nearest double instead of staying a host big int."""
+    if type(n) is int and not -9007199254740992 <= n <= 9007199254740992:
+        return float(n)
+    return n
+
+
 def js_pow(base: Union[int, float], exponent: Union[int, float]) -> float:
     """Number::exponentiate on IEEE doubles (never big-integer arithmetic, never raises)."""
     base = float(base)
